@@ -199,7 +199,12 @@ func hostErrText(cond string, data []string) string {
 
 func runReal(src string) obs { return runRealOpt(src, false) }
 
-func runRealOpt(src string, hostData bool) obs {
+func runRealOpt(src string, hostData bool) obs { return runRealAfter("", src, hostData) }
+
+// runRealAfter: the same observation, on a runtime in which the source `earlier` (if any) was loaded -- and possibly
+// failed -- before.  The carve-out is a fact about ONE error, not about the runtime: what an earlier evaluation raised
+// or recovered must not change how a later error is handled.
+func runRealAfter(earlier, src string, hostData bool) obs {
 	hr := el.Fn("host-raise", []string{"c", "&rest", "d"}, func(env *lisp.LEnv, args *lisp.LVal) *lisp.LVal {
 		if len(args.Cells) < 1 || args.Cells[0].Type != lisp.LSymbol {
 			return env.Errorf("host-raise: the condition is not a symbol")
@@ -220,6 +225,9 @@ func runRealOpt(src string, hostData bool) obs {
 		return env.ErrorConditionf("host-error", "host handler failed")
 	})
 	env := el.MustEnv(el.Opts{Builtins: []lisp.LBuiltinDef{hp, hph, heh, hr}})
+	if earlier != "" {
+		env.LoadString("earlier", earlier)
+	}
 	env.Err.Reset()
 	res := env.LoadString("test", src)
 	o := el.Observe(res, env.Err.String())
@@ -282,12 +290,16 @@ func classify(t *gen.Tree, ref, real obs) string {
 
 func replay(v core.Violation) (bool, string) {
 	// the data family's cases also say whether the data of an error that reaches the host are compared
-	k, err := core.CaseOf[dataKase](v)
+	k, err := core.CaseOf[struct {
+		Src      string `json:"src"`
+		HostData bool   `json:"host_data"`
+		Earlier  string `json:"earlier"`
+	}](v)
 	if err != nil {
 		return false, err.Error()
 	}
-	a, b := runRefOpt(k.Src, k.HostData), runRealOpt(k.Src, k.HostData)
-	return !agree(a, b), fmt.Sprintf("src: %s\nreference: %s\nelps:      %s", k.Src, a, b)
+	a, b := runRefOpt(k.Src, k.HostData), runRealAfter(k.Earlier, k.Src, k.HostData)
+	return !agree(a, b), fmt.Sprintf("earlier: %s\nsrc: %s\nreference: %s\nelps:      %s", k.Earlier, k.Src, a, b)
 }
 
 func run(r *core.Run) {
@@ -334,6 +346,69 @@ func run(r *core.Run) {
 	r.AddStates(total)
 	handlerSequences(r)
 	errorData(r)
+	histories(r, g)
+}
+
+// Histories: the same terms on a runtime that has ALREADY been through a top-level evaluation ending in (or recovering
+// from) an error or a host panic.  "An error produced by recovering a panic in host code is never swallowed ..., while a
+// lisp-raised error that is merely named internal-panic is handled like any other": both halves are per error, so every
+// term must behave after every earlier event as the reference says it behaves on a fresh runtime.
+var earlierEvents = []struct{ name, src string }{
+	{"host-panic-bare-top-level", "(host-panic)"},
+	{"host-panic-as-argument", "(list 1 (host-panic))"},
+	{"host-panic-in-function", "(defun hpf () (host-panic)) (hpf)"},
+	{"host-panic-in-loaded-source", "(load-string \"(host-panic)\")"},
+	{"host-panic-caught-by-name", "(handler-bind ([internal-panic (lambda (c &rest d) 'caught)]) (host-panic))"},
+	{"host-panic-through-ignore-errors", "(ignore-errors (host-panic))"},
+	{"host-panic-in-handler", "(handler-bind ([condition host-panic-handler]) (error 'c1 1))"},
+	{"forged-bare-top-level", "(error 'internal-panic \"forged\")"},
+	{"forged-swallowed", "(ignore-errors (error 'internal-panic \"forged\"))"},
+	{"ordinary-error-bare-top-level", "(error 'c1 1)"},
+	{"rethrow-bare-top-level", "(rethrow)"},
+}
+
+func histories(r *core.Run, g *gen.Grammar) {
+	size := 3
+	if r.Thorough() {
+		size = 4
+	}
+	total := g.Total(size)
+	ne := int64(len(earlierEvents))
+	r.Bound("history_terms", total)
+	r.Bound("history_earlier_events", int(ne))
+	r.Rule(fmt.Sprintf("history family: every term of the condition grammar up to %d nodes evaluated on a runtime in which one of %d earlier top-level evaluations took place (a host panic as a bare top-level form / as an argument / inside a function / inside a loaded source / caught by its explicit name / passing through ignore-errors / raised by a handler; a lisp error named internal-panic reaching the host / swallowed; an ordinary error; a stray rethrow) must give what the reference gives for the term on a fresh runtime", size, ne))
+	core.ParallelRange(r, total*ne, nil, func(_ struct{}, i int64) {
+		t := g.At(size, i/ne)
+		ev := earlierEvents[i%ne]
+		src := prelude + render(t)
+		ref, real := runRef(src), runRealAfter(ev.src, src, false)
+		r.AddEvals(1)
+		r.AddTransitions(1)
+		r.AddTraces(1)
+		r.AddStates(1)
+		r.Outcome("history:" + ref.Class + "/" + real.Class + ":" + ifs(real.Class == "err", real.Text, ""))
+		r.Nontrivial(ev.name + " " + src)
+		if agree(ref, real) {
+			return
+		}
+		cls := "history:" + ev.name + ":" + classify(t, ref, real)
+		if r.Seen(cls) >= 1 {
+			r.CountOnly(cls)
+			return
+		}
+		for n := 0; n < 5; n++ {
+			if agree(runRef(src), runRealAfter(ev.src, src, false)) {
+				r.Flaky(histKase{ev.src, src})
+				return
+			}
+		}
+		r.Violate("c06", cls, histKase{ev.src, src}, "reference (fresh runtime): "+ref.String(), "elps after "+ev.src+": "+real.String(), "")
+	})
+}
+
+type histKase struct {
+	Earlier string `json:"earlier"`
+	Src     string `json:"src"`
 }
 
 // Handler-action sequences: what a handler does while the error it handles is current.  The statement says rethrow
